@@ -40,6 +40,7 @@ class G:
     closed: str = "right"
     dask: bool = False             # labels given as a dask array
     isbin: bool = False            # ivs only: isbin flag passed along with the IntervalIndex (irrelevant to flox)
+    ldtype: str = ""               # "float32": the label array is handed over in single precision (labels are float32 values)
 
 
 @dataclass
@@ -99,6 +100,9 @@ def by_array(g: G):
         a = np.array([int(x) for x in labs], dtype="int64")
     else:
         a = np.array(labs, dtype="float64")
+    if g.ldtype == "float32":
+        a = np.array(labs, dtype="float32")
+        assert all((x != x) or float(y) == x for x, y in zip(labs, a.tolist())), "float32 labels must be float32 values"
     return a.reshape(tuple(g.shape))
 
 
@@ -711,6 +715,19 @@ def gen_grouper(rng: random.Random, shape: list, kinds=("cat", "cat", "edges", "
         return G(kind="cat", labels=labels, shape=list(shape), expected=exp)
     edges = gen_edges(rng)
     labels = gen_bin_labels(rng, edges, n)
+    ldtype = ""
+    if rng.random() < 0.2:
+        # single-precision labels against double-precision edges that float32 cannot represent (k/10): a label that is the
+        # float32 rounding of an edge lies strictly on one side of that edge, as pandas.cut sees it
+        edges = [e / 10 for e in edges]
+        labels = [x if (x != x or math.isinf(x)) else float(np.float32(x / 10)) for x in labels]
+        ldtype = "float32"
+    if kind == "edges":
+        return G(kind="edges", labels=labels, shape=list(shape), breaks=edges, ldtype=ldtype)
+    if ldtype:
+        ivs = [[a, b] for a, b in zip(edges, edges[1:])]
+        return G(kind="ivs", labels=labels, shape=list(shape), ivs=ivs, closed=rng.choice(["left", "right"]), isbin=rng.random() < 0.5,
+                 ldtype=ldtype)
     if kind == "edges":
         return G(kind="edges", labels=labels, shape=list(shape), breaks=edges)
     ivs = [[a, b] for a, b in zip(edges, edges[1:])]
